@@ -142,6 +142,14 @@ pub(crate) async fn cleanup_stopped_child_resources(
       ?stopped_child_actor_type,
       "No EndpointInfo found to remove for stopped child (might be PipeReader or already cleaned up)."
     );
+    if stopped_child_actor_type == ActorType::Session && error_opt.is_some() {
+      // Its NewConnectionEstablished may still be on the way (see handle_new_connection_established).
+      let mut core_s = core_arc.core_state.write();
+      core_s.sessions_stopped_unregistered.push_back(stopped_child_actor_id);
+      while core_s.sessions_stopped_unregistered.len() > 64 {
+        core_s.sessions_stopped_unregistered.pop_front();
+      }
+    }
   }
 
   // Notify the ISocket logic that its pipe has been detached.
